@@ -153,6 +153,15 @@ func C19(c *fw.Ctx) {
 			for si, s := range subsets {
 				for _, via := range []bool{false, true} {
 					j := &proto.Job{ID: fmt.Sprintf("ban/%d/%d/%v", i, si, via), Root: b.proj.Root, Files: b.proj.Files, Banned: s, ViaCore: via, Ops: []string{"json"}}
+					// the set given as one option, as two options, or (size 2) in the other order
+					switch (i + si) % 3 {
+					case 1:
+						j.BannedSplit = true
+					case 2:
+						if len(s) == 2 {
+							j.Banned = []string{s[1], s[0]}
+						}
+					}
 					emit(j)
 				}
 			}
@@ -166,6 +175,9 @@ func C19(c *fw.Ctx) {
 		fmt.Sscanf(strings.ReplaceAll(strings.TrimPrefix(j.ID, "ban/"), "/", " "), "%d %d %v", &i, &si, &via)
 		b, s := bases[i], subsets[si]
 		c.Count(fmt.Sprintf("%s|%v|%v", b.name, s, via), true)
+		if j.BannedSplit {
+			c.Inc("cases", "set-given-as-separate-options", 1)
+		}
 		rp := replayOf(j, res)
 		if sig, what := crashSig(res); sig != "" && !strings.HasPrefix(b.sig, "false|panic") {
 			c.Violate(sig, fmt.Sprintf("banned %v on %s: %s", s, b.name, what), rp)
